@@ -54,6 +54,10 @@ func (m *Model) UpdateHail(hail *traits.Hail, opts ...resource.WriteOption) (*tr
 	if hail.Id == "" {
 		return nil, status.Error(codes.InvalidArgument, "missing ID")
 	}
+	// The id is always among the written fields: with resource.WithCreateIfAbsent and an update mask that leaves it
+	// out, the hail would be created with an empty Id under the key hail.Id, and ListHails would page by that empty
+	// Id. For a hail that exists this writes the id it has.
+	opts = append(opts[:len(opts):len(opts)], resource.WithMoreUpdatePaths("id"), resource.WithMoreWritablePaths("id"))
 	msg, err := m.hails.Update(hail.Id, hail, opts...)
 	return castReturn(msg, err)
 }
